@@ -10,6 +10,7 @@ package c11
 
 import (
 	"bytes"
+	"encoding/binary"
 	"encoding/hex"
 	"encoding/json"
 	"fmt"
@@ -18,6 +19,7 @@ import (
 	"sort"
 	"strings"
 	"testing"
+	"time"
 
 	abci "github.com/cometbft/cometbft/abci/types"
 	tmbytes "github.com/cometbft/cometbft/libs/bytes"
@@ -244,6 +246,21 @@ type c12Counters struct {
 // roundTrip exports `n` (as-is, or zero-height after the modules' own preparation), imports the result into a
 // fresh application and applies the three clauses. It returns the number of queries compared.
 func roundTrip(n *chain.Node, w *world, zeroHeight bool, cnt *c12Counters) error {
+	_, err := roundTripNode(n, w, zeroHeight, cnt)
+	return err
+}
+
+// roundTripNode is roundTrip that also hands out the imported application (nil when the round trip was skipped
+// or failed); the imported node has executed no block yet.
+func roundTripNode(n *chain.Node, w *world, zeroHeight bool, cnt *c12Counters) (*chain.Node, error) {
+	imp, err := roundTripImpl(n, w, zeroHeight, cnt)
+	if err != nil {
+		return nil, err
+	}
+	return imp, nil
+}
+
+func roundTripImpl(n *chain.Node, w *world, zeroHeight bool, cnt *c12Counters) (*chain.Node, error) {
 	mode := "as-is"
 	srcCtx := n.Ctx()
 	if zeroHeight {
@@ -256,7 +273,7 @@ func roundTrip(n *chain.Node, w *world, zeroHeight bool, cnt *c12Counters) error
 			htlc.PrepForZeroHeightGenesis(cctx, n.K.HTLC)
 			random.PrepForZeroHeightGenesis(cctx, n.K.Random)
 		}); err != nil {
-			return pbt.Failf("C12/prep-failed", "zero-height preparation failed at height %d: %v", n.Height, err)
+			return nil, pbt.Failf("C12/prep-failed", "zero-height preparation failed at height %d: %v", n.Height, err)
 		}
 		srcCtx = cctx
 	} else if pbt.IsKnown("C12/asis-running-context-rejected") {
@@ -271,16 +288,16 @@ func roundTrip(n *chain.Node, w *world, zeroHeight bool, cnt *c12Counters) error
 		})
 		if running {
 			cnt.skipped["C12/asis-running-context-rejected"]++
-			return nil
+			return nil, nil
 		}
 	}
 	ex, err := n.Export(zeroHeight)
 	if err != nil {
-		return pbt.Failf("C12/export-failed", "%s export at height %d failed: %v", mode, n.Height, err)
+		return nil, pbt.Failf("C12/export-failed", "%s export at height %d failed: %v", mode, n.Height, err)
 	}
 	src, err := irismodSections(ex.AppState)
 	if err != nil {
-		return pbt.Failf("C12/export-failed", "%s export is not JSON: %v", mode, err)
+		return nil, pbt.Failf("C12/export-failed", "%s export is not JSON: %v", mode, err)
 	}
 	// (1) import
 	opts := nodeOpts
@@ -293,21 +310,21 @@ func roundTrip(n *chain.Node, w *world, zeroHeight bool, cnt *c12Counters) error
 	imp, err := chain.NewNode(opts, ex.AppState, initial)
 	if err != nil {
 		if !zeroHeight && strings.Contains(err.Error(), "invalid request context") {
-			return pbt.Failf("C12/asis-running-context-rejected", "as-is export of height %d (contains a request context that is running or whose batch is not completed) is rejected by import: %v", n.Height, firstLine(err.Error()))
+			return nil, pbt.Failf("C12/asis-running-context-rejected", "as-is export of height %d (contains a request context that is running or whose batch is not completed) is rejected by import: %v", n.Height, firstLine(err.Error()))
 		}
-		return pbt.Failf("C12/import-rejected/"+slug(err.Error()), "%s export of height %d is rejected by import: %v", mode, n.Height, firstLine(err.Error()))
+		return nil, pbt.Failf("C12/import-rejected/"+slug(err.Error()), "%s export of height %d is rejected by import: %v", mode, n.Height, firstLine(err.Error()))
 	}
 	impCtx := imp.Ctx().WithBlockHeight(srcCtx.BlockHeight()).WithBlockTime(srcCtx.BlockTime())
 	if zeroHeight {
 		impCtx = imp.Ctx().WithBlockTime(srcCtx.BlockTime())
 	}
 	if err := safeRun(func() { imp.App.CrisisKeeper.AssertInvariants(impCtx) }); err != nil {
-		return pbt.Failf("C12/import-invariant/"+slug(err.Error()), "invariants broken after importing the %s export of height %d: %v", mode, n.Height, firstLine(err.Error()))
+		return nil, pbt.Failf("C12/import-invariant/"+slug(err.Error()), "invariants broken after importing the %s export of height %d: %v", mode, n.Height, firstLine(err.Error()))
 	}
 	// (2) fixpoint
 	again, err := reexport(imp, impCtx)
 	if err != nil {
-		return pbt.Failf("C12/reexport-failed", "%s: exporting the imported state failed: %v", mode, err)
+		return nil, pbt.Failf("C12/reexport-failed", "%s: exporting the imported state failed: %v", mode, err)
 	}
 	var diff []string
 	for _, m := range chain.IrismodModules {
@@ -331,7 +348,7 @@ func roundTrip(n *chain.Node, w *world, zeroHeight bool, cnt *c12Counters) error
 			cnt.skipped[sig]++
 			continue
 		}
-		return pbt.Failf(sig, "%s export of height %d: module sections %v change on import+export\n first : %s\n second: %s", mode, n.Height, diff,
+		return nil, pbt.Failf(sig, "%s export of height %d: module sections %v change on import+export\n first : %s\n second: %s", mode, n.Height, diff,
 			clip(string(src[m])), clip(string(again[m])))
 	}
 	// (3) queries
@@ -343,11 +360,11 @@ func roundTrip(n *chain.Node, w *world, zeroHeight bool, cnt *c12Counters) error
 	for _, q := range catalogue(n, srcCtx, w) {
 		a, err := runQuery(n, qctx, q)
 		if err != nil {
-			return pbt.Failf("harness/query", "%v", err)
+			return nil, pbt.Failf("harness/query", "%v", err)
 		}
 		b, err := runQuery(imp, impCtx, q)
 		if err != nil {
-			return pbt.Failf("harness/query", "%v", err)
+			return nil, pbt.Failf("harness/query", "%v", err)
 		}
 		cnt.queries++
 		if a != b {
@@ -363,7 +380,7 @@ func roundTrip(n *chain.Node, w *world, zeroHeight bool, cnt *c12Counters) error
 				cnt.skipped[sig]++
 				continue
 			}
-			return pbt.Failf(sig, "%s export of height %d: query %q (%s) answers differently after import\n before: %s\n after : %s", mode, n.Height, q.Desc, q.Path,
+			return nil, pbt.Failf(sig, "%s export of height %d: query %q (%s) answers differently after import\n before: %s\n after : %s", mode, n.Height, q.Desc, q.Path,
 				decodeAnswer(a), decodeAnswer(b))
 		}
 	}
@@ -380,7 +397,7 @@ func roundTrip(n *chain.Node, w *world, zeroHeight bool, cnt *c12Counters) error
 	if ne > cnt.sectionsNonEmpty {
 		cnt.sectionsNonEmpty = ne
 	}
-	return nil
+	return imp, nil
 }
 
 // collapseFeedValues rewrites an oracle genesis section so that every feed keeps only the last listed value.
@@ -495,24 +512,72 @@ type c12Machine struct {
 	ops []blockOp
 	cnt c12Counters
 	ok  int
+	// shadow is the application that imported an as-is export of n at height shadowFrom; from then on every
+	// block of the history is executed on both, and the re-imported chain must keep behaving like the original.
+	shadow                               *chain.Node
+	shadowFrom                           int64
+	forks, shadowBlocks, shadowTxs       int
+	shadowOK, shadowDue, shadowCompared  int
+	zhBlocks, shadowEnded, forkSkipped   int
 }
 
 func newC12() pbt.Machine[blockOp] {
 	m := &c12Machine{n: mustNode()}
-	m.h = &hist{n: m.n, w: newWorld(), rich: 4}
+	m.h = &hist{n: m.n, w: newWorld(), rich: 4, maxIdle: 60}
 	m.cnt.skipped = map[string]int{}
 	return m
 }
 
 func (m *c12Machine) Next(t *rapid.T) blockOp {
 	op := m.h.nextBlock(t, 4)
-	if len(m.ops) > 3 && rapid.IntRange(0, 9).Draw(t, "export") == 0 {
-		op.Export = "asis"
+	if len(m.ops) > 3 {
+		switch rapid.IntRange(0, 9).Draw(t, "export") {
+		case 0:
+			op.Export = "asis"
+		case 1, 2:
+			// the imported application becomes a second chain that executes the rest of the history as well
+			if m.shadow == nil || rapid.IntRange(0, 3).Draw(t, "refork") == 0 {
+				op.Export = "fork"
+			}
+		}
 	}
 	return op
 }
 
 func (m *c12Machine) Apply(op blockOp) error {
+	for _, b := range expandIdle(op) {
+		if err := m.applyOne(b); err != nil {
+			return err
+		}
+	}
+	return nil
+}
+
+// shadowSig turns a C13 queue clause into the signature of the C12 clause "the re-imported chain keeps working".
+func shadowSig(err error) error {
+	if v, ok := err.(*pbt.Violation); ok {
+		return pbt.Failf("C12/imported-chain/"+strings.TrimPrefix(v.Sig, "C13/"), "%s", v.Msg)
+	}
+	return err
+}
+
+func (m *c12Machine) applyOne(op blockOp) error {
+	dueBefore := 0
+	if m.shadow != nil && apphashDependent(m.n, op) {
+		// An oracle-seeded random request picks its provider from a generator seeded with the app hash
+		// (random/keeper/service.go RequestService). The app hash is chain data, but it is not part of a genesis: the
+		// re-imported chain legitimately has another one. The comparison ends here, with the final clauses.
+		if m.shadow.Height > m.shadowFrom {
+			if err := m.compareChains(); err != nil {
+				return err
+			}
+		}
+		m.shadow = nil
+		m.shadowEnded++
+	}
+	if m.shadow != nil {
+		dueBefore = dueCount(m.n)
+	}
 	resp, err := runBlock(m.n, op)
 	if err != nil {
 		return pbt.Failf("C12/block-failed", "%v", err)
@@ -524,20 +589,235 @@ func (m *c12Machine) Apply(op blockOp) error {
 			m.ok++
 		}
 	}
-	if op.Export == "asis" {
+	if m.shadow != nil {
+		sresp, err := runBlock(m.shadow, op)
+		if err != nil {
+			return pbt.Failf("C12/imported-chain/block-halt", "the chain that imported the export of height %d does not complete block %d: %v", m.shadowFrom, m.shadow.Height+1, firstLine(err.Error()))
+		}
+		m.shadowBlocks++
+		if dueBefore > 0 {
+			m.shadowDue++
+		}
+		if len(sresp.TxResults) != len(resp.TxResults) {
+			return pbt.Failf("harness/shadow", "tx result counts differ: %d vs %d", len(resp.TxResults), len(sresp.TxResults))
+		}
+		for i, r := range resp.TxResults {
+			q := sresp.TxResults[i]
+			m.shadowTxs++
+			if r.Code == 0 {
+				m.shadowOK++
+			}
+			// acceptance only: the reason of a refusal may differ where a module documents that finished items are
+			// dropped on export (a claim of a completed HTLC is "not open" on one chain and "unknown" on the other)
+			if (r.Code == 0) != (q.Code == 0) {
+				return pbt.Failf("C12/imported-chain/tx-result-differs", "block %d, tx %d (%s): the original chain answers code %d %s (%s), the chain that imported its export of height %d answers code %d %s (%s)",
+					m.n.Height, i, clip(string(bytes.Join(rawMsgs(op.Txs[i].Msgs), []byte(" ; ")))), r.Code, r.Codespace, firstLine(r.Log), m.shadowFrom, q.Code, q.Codespace, firstLine(q.Log))
+			}
+		}
+		if err := queueHygiene(m.shadow); err != nil {
+			return shadowSig(err)
+		}
+	}
+	switch op.Export {
+	case "asis":
 		return roundTrip(m.n, m.h.w, false, &m.cnt)
+	case "fork":
+		imp, err := roundTripNode(m.n, m.h.w, false, &m.cnt)
+		if err != nil {
+			return err
+		}
+		if imp != nil && serviceSchedulePending(m.n) {
+			// A paused request context may still have an entry in the service queues (its next batch, or the expiry of
+			// its last one). The queues are not part of the service genesis, so on the imported chain a later start
+			// issues the next batch at once instead of at the scheduled height: request ids and timing then differ
+			// although every context is preserved. Such a state is round-tripped but not continued.
+			m.forkSkipped++
+			imp = nil
+		}
+		if imp != nil {
+			imp.CopyOffChain(m.n)
+			if err := queueHygiene(imp); err != nil {
+				return shadowSig(err)
+			}
+			m.shadow, m.shadowFrom = imp, m.n.Height
+			m.forks++
+		}
 	}
 	return nil
 }
+
+// apphashDependent reports whether the block holds an oracle-seeded random request while the seed service has
+// more than one provider bound.
+func apphashDependent(n *chain.Node, op blockOp) bool {
+	found := false
+	for _, tx := range op.Txs {
+		for _, raw := range tx.Msgs {
+			if bytes.Contains(raw, []byte(`"/irismod.random.MsgRequestRandom"`)) && bytes.Contains(compactJSON(raw), []byte(`"oracle":true`)) {
+				found = true
+			}
+		}
+	}
+	if !found {
+		return false
+	}
+	bindings := 0
+	n.K.Service.IterateServiceBindings(n.Ctx(), func(b servicetypes.ServiceBinding) bool {
+		if b.ServiceName == randomtypes.ServiceName {
+			bindings++
+		}
+		return false
+	})
+	return bindings >= 2
+}
+
+func rawMsgs(in []json.RawMessage) [][]byte {
+	out := make([][]byte, len(in))
+	for i, r := range in {
+		out[i] = r
+	}
+	return out
+}
+
+// serviceSchedulePending reports whether the service module's new-batch or expiry queue holds an entry.
+func serviceSchedulePending(n *chain.Node) bool {
+	ctx := n.Ctx()
+	a, _ := rawStore(n, ctx, "service", servicetypes.NewRequestBatchKey)
+	b, _ := rawStore(n, ctx, "service", servicetypes.ExpiredRequestBatchKey)
+	return len(a)+len(b) > 0
+}
+
+// dueCount is the number of queue entries of htlc, farm, service and random that fall due in the next block.
+func dueCount(n *chain.Node) int {
+	ctx := n.Ctx()
+	next := uint64(n.Height + 1)
+	c := 0
+	for _, q := range []struct {
+		store  string
+		prefix []byte
+	}{{"htlc", htlctypes.HTLCExpiredQueueKey}, {"farm", farmtypes.ActiveFarmPoolKey}, {"service", servicetypes.NewRequestBatchKey}, {"service", servicetypes.ExpiredRequestBatchKey}} {
+		keys, _ := rawStore(n, ctx, q.store, q.prefix)
+		for _, k := range keys {
+			if len(k) >= 9 && binary.BigEndian.Uint64(k[1:9]) == next {
+				c++
+			}
+		}
+	}
+	n.K.Random.IterateRandomRequestQueue(ctx, func(height int64, reqID []byte, r randomtypes.Request) bool {
+		if uint64(height)+1 == next {
+			c++
+		}
+		return false
+	})
+	return c
+}
+
+// compareChains requires the original chain and the chain that imported its export to agree, after both executed
+// the same blocks, on the exported irismod genesis and on the query catalogue.
+func (m *c12Machine) compareChains() error {
+	a, _, err := exportSections(m.n)
+	if err != nil {
+		return pbt.Failf("C12/export-failed", "as-is export at height %d failed: %v", m.n.Height, err)
+	}
+	b, _, err := exportSections(m.shadow)
+	if err != nil {
+		return pbt.Failf("C12/imported-chain/export-failed", "the chain that imported the export of height %d cannot be exported at height %d: %v", m.shadowFrom, m.shadow.Height, err)
+	}
+	for _, mod := range chain.IrismodModules {
+		x, y := compactJSON(a[mod]), compactJSON(b[mod])
+		if bytes.Equal(x, y) {
+			continue
+		}
+		sig := "C12/imported-chain/state-differs/" + mod
+		if mod == "record" && sameRecordMultiset(x, y) {
+			sig = "C12/record-ids-change-on-import"
+		}
+		if pbt.IsKnown(sig) {
+			m.cnt.skipped[sig]++
+			continue
+		}
+		return pbt.Failf(sig, "%d blocks after the export of height %d was imported, the two chains (same blocks executed) export different %s states\n original: %s\n imported: %s",
+			m.n.Height-m.shadowFrom, m.shadowFrom, mod, clipDiff(string(x), string(y)), clipDiff(string(y), string(x)))
+	}
+	ctxA, ctxB := m.n.Ctx(), m.shadow.Ctx()
+	for _, q := range catalogue(m.n, ctxA, m.h.w) {
+		x, err := runQuery(m.n, ctxA, q)
+		if err != nil {
+			return pbt.Failf("harness/query", "%v", err)
+		}
+		y, err := runQuery(m.shadow, ctxB, q)
+		if err != nil {
+			return pbt.Failf("harness/query", "%v", err)
+		}
+		m.cnt.queries++
+		if x != y {
+			mod := strings.Split(strings.TrimPrefix(q.Path, "/irismod."), ".")[0]
+			sig := "C12/imported-chain/query-differs/" + mod
+			if mod == "record" {
+				sig = "C12/record-ids-change-on-import"
+			}
+			if pbt.IsKnown(sig) {
+				m.cnt.skipped[sig]++
+				continue
+			}
+			return pbt.Failf(sig, "%d blocks after the export of height %d was imported, query %q (%s) is answered differently by the two chains\n original: %s\n imported: %s",
+				m.n.Height-m.shadowFrom, m.shadowFrom, q.Desc, q.Path, decodeAnswer(x), decodeAnswer(y))
+		}
+	}
+	m.shadowCompared++
+	return nil
+}
+
+// clipDiff shows a around the first position where it differs from b.
+func clipDiff(a, b string) string {
+	i := 0
+	for i < len(a) && i < len(b) && a[i] == b[i] {
+		i++
+	}
+	from := i - 200
+	if from < 0 {
+		from = 0
+	}
+	to := i + 400
+	if to > len(a) {
+		to = len(a)
+	}
+	return "…" + a[from:to] + "…"
+}
+
+// zhIdleBlocks is the number of empty blocks executed on the chain that imported the zero-height export.
+const zhIdleBlocks = 8
 
 func (m *c12Machine) Finish() error {
 	if len(m.ops) == 0 {
 		return nil
 	}
+	if m.shadow != nil && m.shadow.Height > m.shadowFrom {
+		// (an imported application that has executed no block yet was compared by the round trip itself)
+		if err := m.compareChains(); err != nil {
+			return err
+		}
+	}
 	if err := roundTrip(m.n, m.h.w, false, &m.cnt); err != nil {
 		return err
 	}
-	return roundTrip(m.n, m.h.w, true, &m.cnt)
+	imp, err := roundTripNode(m.n, m.h.w, true, &m.cnt)
+	if err != nil || imp == nil {
+		return err
+	}
+	// the restarted chain must be able to go on: a few empty blocks, queue scans and the registered invariants
+	for i := 0; i < zhIdleBlocks; i++ {
+		if _, err := imp.Block([]time.Duration{time.Second, time.Nanosecond, 7 * time.Minute, 6 * time.Second}[i%4], nil); err != nil {
+			return pbt.Failf("C12/imported-chain/block-halt", "the chain restarted from the zero-height export of height %d does not complete block %d: %v", m.n.Height, imp.Height+1, firstLine(err.Error()))
+		}
+		m.zhBlocks++
+		if err := queueHygiene(imp); err != nil {
+			return shadowSig(err)
+		}
+	}
+	if err := safeRun(func() { imp.App.CrisisKeeper.AssertInvariants(imp.Ctx()) }); err != nil {
+		return pbt.Failf("C12/imported-chain/invariant/"+slug(err.Error()), "invariants broken %d blocks after restarting from the zero-height export of height %d: %v", zhIdleBlocks, m.n.Height, firstLine(err.Error()))
+	}
+	return nil
 }
 
 func (m *c12Machine) Classify() (bool, []string) {
@@ -578,6 +858,30 @@ func (m *c12Machine) Classify() (bool, []string) {
 	}
 	if passedProposals(m.n) > 0 {
 		cl = append(cl, "params-changed-by-proposal")
+	}
+	if m.forks > 0 {
+		cl = append(cl, "forked")
+	}
+	if m.shadowBlocks >= 10 {
+		cl = append(cl, "imported-chain-ran>=10-blocks")
+	}
+	if m.shadowOK >= 5 {
+		cl = append(cl, "imported-chain-ran>=5-ok-txs")
+	}
+	if m.shadowDue > 0 {
+		cl = append(cl, "imported-chain-processed-due-items")
+	}
+	if m.shadowCompared > 0 {
+		cl = append(cl, "imported-chain-compared-at-end")
+	}
+	if m.zhBlocks > 0 {
+		cl = append(cl, "zero-height-chain-continued")
+	}
+	if m.forkSkipped > 0 {
+		cl = append(cl, "not-continued:service-schedule-pending")
+	}
+	if m.shadowEnded > 0 {
+		cl = append(cl, "comparison-ended:provider-drawn-from-app-hash")
 	}
 	sort.Strings(cl)
 	for k, v := range m.cnt.skipped {
